@@ -173,6 +173,8 @@ def make_function(case, seen, token):
             ns['D%d' % i] = dec(sp['default'])
             s += '=D%d' % i
         parts.append(s)
+        if sp.get('posonly') and not (i + 1 < len(sig['params']) and sig['params'][i + 1].get('posonly')):
+            parts.append('/')
     if varpos and not star:
         parts.append('*args')
     if sig['varkw']:
@@ -253,7 +255,10 @@ def perform(case, target, pdescs, journal, seen, token):
         kw = b.pop('kw', {}) if case['sig']['varkw'] else {}
         if case['sig'].get('varpos'):
             res['star'] = [enc(v) for v in b.pop('args', ())]
-        b.update(kw)
+        if any(sp.get('posonly') for sp in case['sig']['params']):
+            res['kw_extra'] = sorted([ncode(k), enc(v)] for k, v in kw.items())      # must not mask the positional-only binding
+        else:
+            b.update(kw)
         res['binding'] = sorted([ncode(k), enc(v)] for k, v in b.items())
         if res['final'][0] == 'raise':
             res['raised_after_body'] = True
